@@ -2,8 +2,8 @@ SPECIFICATION GSpec
 CONSTANTS
   ElemSize = 8
   NV = 3
-  Depth = 3
-  MaxC = 2
+  Depth = 2
+  MaxC = 3
 INVARIANTS Inv
 VIEW View
 ACTION_CONSTRAINT EmitScript
